@@ -49,6 +49,7 @@ Fixpoint lazy_free (a : ast) : bool :=
   match a with
   | ABreak lz _ _ _ => negb lz
   | AIf _ th el _ => forallb lazy_free th && forallb lazy_free el
+  | AIfOK _ _ _ _ _ th el _ => forallb lazy_free th && forallb lazy_free el
   | ASwitch _ cases dflt _ => forallb lazy_free cases && forallb lazy_free dflt
   | ACase _ body => forallb lazy_free body
   | ARegion _ body => forallb lazy_free body
@@ -115,6 +116,12 @@ Section Lazy.
       intros e. cbn [ref_eval]. destruct (ref_cond flits e c) as [[|]| |]; try discriminate.
       + apply seq_no_lazy, ALL; assumption.
       + destruct he; [apply seq_no_lazy, ALL; assumption|discriminate].
+    - cbn [lazy_free] in H1. apply andb_true_iff in H1. destruct H1 as [H1 H2].
+      intros e. cbn [ref_eval].
+      destruct (if al then Some (VBytes arg) else env_get e arg) as [x|]; [|discriminate].
+      destruct (text_of [] x) as [[|b0 t0]|]; cbv beta iota;
+        (destruct (xorb ng _); [apply seq_no_lazy, ALL; assumption|]);
+        (destruct he; [apply seq_no_lazy, ALL; assumption|discriminate]).
     - cbn [lazy_free] in H1. apply andb_true_iff in H1. destruct H1 as [H1 H2].
       intros e. cbn [ref_eval].
       assert (CS : Forall (fun a => match a with ACase _ body => Forall never_lazy body | _ => True end) cases).
